@@ -54,6 +54,9 @@ type heapWrite struct {
 }
 
 func (st *State) wrote(key, ref string) {
+	if st.quiet > 0 {
+		return // havoc that models interference or a loop cut, not a write of this function
+	}
 	for _, w := range st.writes {
 		if w.key == key && w.ref == ref {
 			return
@@ -118,6 +121,7 @@ type State struct {
 	subFresh int     // how many entries of fresh are sub-object terms (not numbered)
 	locals  []localCell // function-local cells (Alloc) that have not escaped
 	writes  []heapWrite   // heap writes on this path (for the frame check)
+	quiet   int
 	cells   map[string]Val // ref -> current value of a non-escaped local cell
 	snaps   map[string]map[string]string // lock term -> heap at its latest acquisition
 	calls   map[string]callRecord
